@@ -43,7 +43,8 @@ EXPLANATION = ("partial: the Lean theorems hold for every integer literal of the
 THEOREMS = [
     "Cppcheck.C10.toBig_render", "Cppcheck.C10.toBigU_render", "Cppcheck.C10.toBig_rejects_overflow_partial",
     "Cppcheck.C10.toBig_rejects_overflow_counterexample", "Cppcheck.C10.toBig_bin_wraps",
-    "Cppcheck.C10.isInt_iff_grammar", "Cppcheck.C10.suffix_iff_spec",
+    "Cppcheck.C10.isInt_iff_grammar", "Cppcheck.C10.suffix_iff_spec", "Cppcheck.C10.suffix_iff_spec_std", "Cppcheck.C10.literal_value",
+    "Cppcheck.C10.cast_eq_wrap",
     "Cppcheck.C10.charlit_value", "Cppcheck.C10.charlit_value_before_fix_counterexample",
     "Cppcheck.C10.truncate_eq_wrap", "Cppcheck.C10.truncate_signed", "Cppcheck.C10.truncate_unsigned",
     "Cppcheck.C10.minmax_eq_range_partial", "Cppcheck.C10.minmax_counterexample", "Cppcheck.C10.const_unsigned_adjust",
@@ -764,7 +765,7 @@ def uac(P, a, b):
 
 SUF_CLI = [("", False, 0), ("u", True, 0), ("U", True, 0), ("l", False, 1), ("L", False, 1), ("ul", True, 1), ("UL", True, 1), ("lu", True, 1),
            ("ll", False, 2), ("LL", False, 2), ("ull", True, 2), ("ULL", True, 2), ("llu", True, 2), ("LLU", True, 2)]
-CAST_T = [("signed char", ("char", False)), ("unsigned char", ("char", True)), ("short", ("short", False)), ("unsigned short", ("short", True)),
+CAST_T = [("char", ("char", None)), ("signed char", ("char", False)), ("unsigned char", ("char", True)), ("short", ("short", False)), ("unsigned short", ("short", True)),
           ("int", ("int", False)), ("unsigned", ("int", True)), ("unsigned int", ("int", True)), ("long", ("long", False)),
           ("unsigned long", ("long", True)), ("long long", ("llong", False)), ("unsigned long long", ("llong", True))]
 SIZEOF_T = [("char", "char"), ("signed char", "char"), ("unsigned char", "char"), ("short", "short"), ("unsigned short", "short"), ("int", "int"),
@@ -833,9 +834,54 @@ def cli_char(rng, P, cpp):
     return "%s'%s'" % (pfx, c), ("int", False), ord(c), "charp:" + pfx
 
 
+def float32(x):
+    import struct
+    try:
+        return struct.unpack("f", struct.pack("f", x))[0]
+    except OverflowError:
+        return float("inf")
+
+
+def cli_float(rng):
+    """a floating literal: (spelling, value a compiler gives it as double, suffix)"""
+    suf = rng.choice(["", "", "", "f", "F", "l", "L"])
+    if rng.random() < 0.25:
+        # hexadecimal floating literal
+        whole, frac = "%x" % rng.getrandbits(rng.choice([1, 4, 12])), rng.choice(["", "8", "c", "4", "%x" % rng.getrandbits(12)])
+        exp = rng.randrange(-20, 21)
+        body = "0x%s%s%sp%s%d" % (whole, "." if frac or rng.random() < 0.3 else "", frac, rng.choice(["", "+"]) if exp >= 0 else "", exp)
+        val = float.fromhex(body)
+    else:
+        digs = str(rng.choice([0, 1, 5, 10, 123, 16777217, 4294967297, rng.getrandbits(rng.choice([8, 20, 40]))]))
+        frac = rng.choice(["", "0", "5", "1", "25", "333333333333", str(rng.getrandbits(30))])
+        form = rng.random()
+        if form < 0.45:
+            body = digs + "." + frac
+        elif form < 0.6:
+            body = "." + (frac or "5")                      # no exponent here: `.5e-3` is split by the lexer (see docs, observation)
+        else:
+            e = rng.randrange(-30, 31)
+            body = digs + ("." + frac if rng.random() < 0.5 else "") + rng.choice("eE") + (rng.choice(["", "+"]) if e >= 0 else "") + str(e)
+        val = float(body)
+    if suf in "fF" and suf:
+        val32 = float32(val)
+        if val32 in (float("inf"), 0.0) and val != 0.0:
+            suf = ""
+        else:
+            return body + suf, val32, suf, val
+    return body + suf, val, suf, val
+
+
 def cli_expr(rng, P, cpp):
     """one constant expression: dict(src, expect (int or None = undefined / ill-formed), kind, detail)"""
     k = rng.random()
+    if k < 0.08:
+        src, val, suf, dval = cli_float(rng)
+        return dict(src=src, expect=None, fexpect=val, dvalue=dval, suffix=suf, kind="F", ty=("int", False))
+    if k < 0.11:
+        b = rng.choice(["true", "false"])
+        return dict(src=b, expect=1 if b == "true" else 0, kind="T", ty=("int", False))
+    k = (k - 0.11) / 0.89
     if k < 0.34:
         src, ty, v, d = cli_lit(rng, P, cpp)
         return dict(src=src, expect=v, kind="L", ty=ty)
@@ -847,13 +893,16 @@ def cli_expr(rng, P, cpp):
         return dict(src="sizeof(%s)" % tn, expect=P.size[t], kind="S", ty=("long", True))
     if k < 0.78:
         tn, ty = rng.choice(CAST_T)
+        plain = ty[1] is None
+        if plain:
+            ty = ("char", P.char_unsigned)
         src, lty, v, d = cli_lit(rng, P, cpp, small=rng.random() < 0.5)
         neg = rng.random() < 0.3
         if neg:
             if not fits(P, lty, -v) and not lty[1]:
                 neg = False
         val = conv(P, lty, -v) if neg else v
-        return dict(src="(%s)%s%s" % (tn, "-" if neg else "", src), expect=conv(P, ty, val), kind="K", ty=ty, neg=neg, lty=lty, v=v)
+        return dict(src="(%s)%s%s" % (tn, "-" if neg else "", src), expect=conv(P, ty, val), kind="K", ty=ty, neg=neg, lty=lty, v=v, plain=plain, inner=val)
     op = rng.choice("+-*")
     a_src, aty, av, alit = cli_lit(rng, P, cpp, small=True)
     b_src, bty, bv, blit = cli_lit(rng, P, cpp, small=True)
@@ -866,10 +915,14 @@ def cli_expr(rng, P, cpp):
     return dict(src="%s %s %s" % (a_src, op, b_src), expect=expect, kind="B", ty=rty, exact=exact, op=op, a=av, b=bv, aty=aty, bty=bty, alit=alit, blit=blit)
 
 
+def cli_ret_type(e):
+    return "double" if e["kind"] == "F" else "long long"
+
+
 def cli_program(exprs):
     # one function per expression, the expression is the operand of `return` (no enclosing binary operator or assignment whose
     # implicit conversion cppcheck would apply to the operand's own value)
-    return "".join("long long f%d(void) { return %s; }\n" % (i, e["src"]) for i, e in enumerate(exprs))
+    return "".join("%s f%d(void) { return %s; }\n" % (cli_ret_type(e), i, e["src"]) for i, e in enumerate(exprs))
 
 
 VT_SIZE = {"char": "char", "short": "short", "int": "int", "long": "long", "long long": "llong", "wchar_t": "wchar_t"}
@@ -894,13 +947,26 @@ def read_dump(path):
                 if rhs is None:
                     continue
                 # values of unsigned-typed tokens are printed as biguint: bring them back to the bigint they are
-                known = [wrap64(int(v["intvalue"])) for v in vals.get(rhs.get("values"), []) if v.get("known") == "true" and "intvalue" in v and v.get("bound", "Point") == "Point"]
+                def known_of(tok):
+                    return [wrap64(int(v["intvalue"])) for v in vals.get(tok.get("values"), []) if v.get("known") == "true" and "intvalue" in v and v.get("bound", "Point") == "Point"]
+                known = known_of(rhs)
+                rhs = dict(rhs)
+                rhs["__float"] = [float(v["floatvalue"]) for v in vals.get(rhs.get("values"), []) if v.get("known") == "true" and "floatvalue" in v]
+                if rhs.get("isCast") == "true" and rhs.get("astOperand1") and not rhs.get("astOperand2"):
+                    opd = toks.get(rhs["astOperand1"])
+                    if opd is not None:
+                        rhs["__operand_known"] = known_of(opd)
                 out[int(t["linenr"])] = (rhs, known)
     return out
 
 
 def classify_cli(P, e, reported):
     """known-finding classes of a reported constant that differs from the C abstract machine"""
+    if e["kind"] == "F":
+        # F10k: an `f`-suffixed literal is valued as the double the digits denote, not rounded to float
+        if e.get("suffix") in ("f", "F") and abs(reported - e["dvalue"]) <= 1e-10 * abs(e["dvalue"]):
+            return "float-suffix-not-rounded"
+        return None
     if e["kind"] == "B" and e["ty"][1] and "exact" in e:
         if wrap64(e["exact"]) == reported and not fits(P, e["ty"], e["exact"]):
             return "fold-unsigned-no-wrap"            # F5: 64-bit arithmetic, result not reduced to the unsigned operation type
@@ -911,6 +977,10 @@ def classify_cli(P, e, reported):
             ex2 = e["a"] + sb if e["op"] == "+" else e["a"] - sb if e["op"] == "-" else e["a"] * sb
             if reported in (wrap64(ex2), conv(P, (aty[0], False), ex2)):
                 return "fold-mixed-sign-left-signed"
+    if (e["kind"] == "K" and e.get("plain") and not P.char_unsigned and e["expect"] < 0
+            and reported == conv(P, ("char", True), e["inner"])):
+        # F10j: a cast to plain `char` has no sign in cppcheck's ValueType: castValue masks but never sign-extends
+        return "cast-plain-char-not-sign-extended"
     if e["kind"] == "K" and e.get("neg") and e["lty"][1] and reported == conv(P, e["ty"], -e["v"]):
         return "fold-unary-minus-unsigned"        # unary minus on an unsigned operand is not reduced to the operand's type
     return None
@@ -937,7 +1007,7 @@ def run_cli_case(ctx, res, drv, P, cpp, exprs, tag):
     if not os.path.exists(dump):
         raise core.CheckBroken("cppcheck --dump produced no dump for %s on %s: rc=%s %s" % (src, P.name, rc, (out + err)[-300:]))
     lines = read_dump(dump)
-    viol, nknown, mops, mexp = [], 0, [], []
+    viol, nknown, mops, mexp, castops, castexp = [], 0, [], [], [], []
     for i, e in enumerate(exprs):
         ln = 1 + i
         if ln not in lines:
@@ -945,6 +1015,20 @@ def run_cli_case(ctx, res, drv, P, cpp, exprs, tag):
             continue
         tok, known = lines[ln]
         rep = known[0] if known else None
+        if e["kind"] == "F":
+            fl = tok.get("__float") or []
+            res.count("cli:F:%s" % ("known" if fl else "novalue"))
+            res.case("cli|%s|%s|%s" % (P.name, "cpp" if cpp else "c", e["src"]), bool(fl), None)
+            nknown += bool(fl)
+            # the dump prints about 12 significant digits
+            if fl and abs(fl[0] - e["fexpect"]) > 1e-10 * abs(e["fexpect"]):
+                viol.append(dict(platform=P.name, lang="cpp" if cpp else "c", expr=e["src"], kind="F", reported=fl[0], reference=e["fexpect"],
+                                 key=classify_cli(P, e, fl[0])))
+            continue
+        # (a') casts: the cast token's value = model castValue(value of the operand token, sign and width of the cast's type)
+        if e["kind"] == "K" and rep is not None and tok.get("__operand_known") and tok.get("valueType-type") in VT_SIZE and tok.get("valueType-type") != "wchar_t":
+            castops.append("cast %d %d %d" % (tok["__operand_known"][0], 1 if tok.get("valueType-sign") == "signed" else 0, P.bits(VT_SIZE[tok["valueType-type"]])))
+            castexp.append((e, rep))
         res.count("cli:%s:%s" % (e["kind"], "known" if known else "novalue"))
         if known:
             nknown += 1
@@ -961,6 +1045,13 @@ def run_cli_case(ctx, res, drv, P, cpp, exprs, tag):
         if rep is not None and e["expect"] is not None and rep != wrap64(e["expect"]):
             viol.append(dict(platform=P.name, lang="cpp" if cpp else "c", expr=e["src"], kind=e["kind"], reported=rep, reference=e["expect"],
                              key=classify_cli(P, e, rep)))
+    if castops:
+        rc, co, _ = core.run_lines(drv, [], castops)
+        bad = ["%s on %s: reported %s, model %s (%s)" % (e["src"], P.name, rep, o, op) for (e, rep), op, o in zip(castexp, castops, co) if o != str(rep)]
+        res.traces_validated += len(castexp) - len(bad)
+        res.extra["cast_model_checked"] = res.extra.get("cast_model_checked", 0) + len(castexp)
+        if bad:
+            res.extra.setdefault("cli_model_mismatch", []).extend(bad[:5])
     if mops:
         rc, o1, _ = core.run_lines(drv, [], [m[0] for m in mops])
         rc, oc, _ = core.run_lines(drv, [], [m[4] for m in mops])      # Token::isCChar() of the token text (model, corresponded in-process)
@@ -987,12 +1078,12 @@ def cli_tie(ctx, res, drv, x, thorough):
     allp = [Plat(n, v) for n, v in x["builtin"]] + [Plat("native", x["native"])] + [Plat(n, v) for n, v in x["files"]]
     byname = dict((p.name, p) for p in allp)
     if thorough:
-        plats, per = allp, 120
+        plats, per = allp, 400
     else:
         plats = [byname[n] for n in ("unix64", "win64", "unix32") if n in byname]
         extra = [p for p in allp if p.name not in ("unix64", "win64", "unix32", "native", "win32A", "win32W")]
         plats += rng.sample(extra, min(2, len(extra)))
-        per = 45
+        per = 300
     nknown, viols = 0, []
     for P in plats:
         for cpp in (False, True):
@@ -1009,7 +1100,7 @@ def cli_tie(ctx, res, drv, x, thorough):
         n = seen.get(v["key"], 0)
         seen[v["key"]] = n + 1
         if n < (3 if v["key"] else 25):
-            res.violation("reported constant differs from the C abstract machine on platform %s (%s): `%s` reported %d, reference %d" %
+            res.violation("reported constant differs from the C abstract machine on platform %s (%s): `%s` reported %s, reference %s" %
                           (v["platform"], v["lang"], v["expr"], v["reported"], v["reference"]),
                           dict(kind="cli", platform=v["platform"], lang=v["lang"], expr=v["expr"], reported=v["reported"], reference=v["reference"],
                                replay_cmd="./check.py C10 --replay <this file>"), concrete=True, key=v["key"])
@@ -1189,11 +1280,11 @@ def unary_tie(ctx, res, drv, x, thorough):
     rng = ctx.rng
     allp = [Plat(n, v) for n, v in x["builtin"]] + [Plat("native", x["native"])] + [Plat(n, v) for n, v in x["files"]]
     if thorough:
-        runs = [(P, cpp, 110) for P in allp for cpp in (False, True)]
+        runs = [(P, cpp, 250) for P in allp for cpp in (False, True)]
     else:
         builtin = [p for p in allp if p.name in ("unix32", "unix64", "win32A", "win32W", "win64")]
         files = [p for p in allp if p.name not in ("unix32", "unix64", "win32A", "win32W", "win64", "native")]
-        runs = [(P, bool((i + ctx.seed) % 2), 60) for i, P in enumerate(builtin)] + [(P, rng.random() < 0.5, 60) for P in rng.sample(files, min(2, len(files)))]
+        runs = [(P, bool((i + ctx.seed) % 2), 150) for i, P in enumerate(builtin)] + [(P, rng.random() < 0.5, 150) for P in rng.sample(files, min(2, len(files)))]
     nknown, viols = 0, []
     for P, cpp, n in runs:
         exprs = [un_expr(rng, P, cpp) for _ in range(n)]
@@ -1246,6 +1337,13 @@ def replay_cli_witness(ctx, res, drv, x, w):
 def run(ctx, res):
     thorough = ctx.tier == "thorough"
     rng = ctx.rng
+    res.assumptions += [
+        "std::stoull / strtoull behave as documented (modelled, validated by the in-process correspondence incl. white space, sign and 0x quirks)",
+        "host of the analysed binary: char signed 8 bit, int 32 bit (characterLiteralToLL's static_cast<char> / static_cast<int>); re-read by the native probe",
+        "C09's model litTypeCore is what setValueTypeInTokenList does (tied by C09's own correspondence); used by theorem literal_value",
+        "char_bit = 8 on every platform (theorem platforms_sane over the table extracted on this run)",
+        "floating literal values and constant folding of binary operators are sampled through the CLI only (no theorem)",
+    ]
     # T1 -------------------------------------------------------------------------------------------------
     x = None
     try:
@@ -1271,7 +1369,7 @@ def run(ctx, res):
         for c in corpus:
             if "cli" in c:
                 for v in replay_cli_witness(ctx, res, drv, x, c["cli"]):
-                    res.violation("corpus witness: `%s` on %s (%s) reported %d, reference %d" % (v["expr"], v["platform"], v["lang"], v["reported"], v["reference"]),
+                    res.violation("corpus witness: `%s` on %s (%s) reported %s, reference %s" % (v["expr"], v["platform"], v["lang"], v["reported"], v["reference"]),
                                   dict(kind="cli", platform=v["platform"], lang=v["lang"], expr=v["expr"], reported=v["reported"], reference=v["reference"]),
                                   concrete=True, key=v["key"])
         for c in corpus:
@@ -1460,7 +1558,8 @@ def spec_probes(ctx, res, cases, allp, drv):
         used.append(P.name)
         for cpp in (False, True):
             exprs = [cli_expr(rng, P, cpp) for _ in range(150)]
-            exprs = [e for e in exprs if e["expect"] is not None and not (e["kind"] == "C" and e["src"].startswith(("L", "u", "U")))]
+            exprs = [e for e in exprs if e["expect"] is not None and e["kind"] not in ("F",) and not (e["kind"] == "T" and not cpp)
+                     and not (e["kind"] == "C" and e["src"].startswith(("L", "u", "U")))]
             kw = "static_assert" if cpp else "_Static_assert"
             asserts = ['%s((%s) == %d, "");' % (kw, e["src"], e["expect"]) if e["expect"] >= 0 else
                        '%s((%s) == -%d - 1, "");' % (kw, e["src"], -e["expect"] - 1) for e in exprs]
